@@ -138,9 +138,10 @@ def attempt_add_phase_information(
             else:  # alignment has BX tag
                 read_clouds = bxtag_to_haplotype[(sample, tag)]
 
-            for reference_start, haplotype, phaseset in read_clouds:
+            for reference_start, haplotype, cloud_phaseset in read_clouds:
                 if abs(reference_start - alignment.reference_start) <= linked_read_cutoff:
                     haplotype_name = f"H{haplotype + 1}"
+                    phaseset = cloud_phaseset
                     alignment.set_tag("HP", haplotype + 1)
                     alignment.set_tag("PC", value=None)
                     alignment.set_tag("PS", phaseset)
